@@ -604,7 +604,7 @@ func runC19(w *W) {
 	ns := 3000
 	nr := 20000
 	if th {
-		ns, nr = 100000, 500000
+		ns, nr = 400000, 3000000
 	}
 	for k := 0; k < ns; k++ {
 		rr := r.Split()
